@@ -3,11 +3,12 @@ from . import domprops as D
 
 
 def groups(tier):
-    n1, nA, nB = (4, 3, 2) if tier == 'quick' else (5, 4, 3)
+    n1, nA, nB = (5, 4, 2) if tier == 'quick' else (6, 5, 3)
     g = [
         dict(id='M.C10.single', desc='destroy / transfer_within = reference model step (appended last, order kept) and frame condition on every other instance', ops=['destroy', 'transfer_within'], cfg='plain', nA=n1),
         dict(id='M.C10.insert', desc='insert = reference model step: builder order, appended last under the parent, returned referent, payload preserved', ops=['insert'], cfg='plain', nA=nA),
         dict(id='M.C10.transfer', desc='transfer conserves the combined instance set, appends last, keeps referents/internal order/properties', ops=['transfer'], cfg='plain', nA=nA, nB=nB),
+        dict(id='M.C10.builder', desc='InstanceBuilder API: with_child(ren)/add_child(ren)/with_propert(y|ies)/add_propert(y|ies) append in call order; with_name/class/referent replace one field; new/empty are empty with a fresh referent', ops=['builder'], cfg='all', nA=3),
         dict(id='M.C10.payload', desc='same with UniqueId + Ref + plain properties (payload and frame compared per property)', ops=['insert', 'destroy', 'transfer_within', 'transfer'], cfg='all', nA=3, nB=2, builder_sizes=(1, 2)),
     ]
     return g
